@@ -474,15 +474,30 @@ class CallGraph:
         if k in cache:
             return cache[k]
         f = self.funcs[k]
-        vals = set()
-        for n in walk(f.body):
-            if n["k"] == "ReturnStmt":
+
+        def ret_vals(body):
+            """Constants returned by the return statements of `body` itself; a `return helper(...)` whose helper body is
+            grafted onto the call (arguments substituted) yields what the grafted body returns."""
+            inner = set()
+            for c in walk(body):
+                if c.get("k") == "CallExpr" and "inl" in c:
+                    inner.update(id(x) for x in walk(c["inl"]))
+            out = set()
+            for n in walk(body):
+                if n["k"] != "ReturnStmt" or id(n) in inner:
+                    continue
                 ks = kids(n)
                 if not ks:
-                    vals.add(None)
+                    out.add(None)
+                    continue
+                v = ks[0].get("val", strip(ks[0]).get("val"))
+                e = strip(ks[0])
+                if v is None and e is not None and e.get("k") == "CallExpr" and "inl" in e:
+                    out |= ret_vals(e["inl"])
                 else:
-                    v = ks[0].get("val", strip(ks[0]).get("val"))
-                    vals.add(v)
+                    out.add(v)
+            return out
+        vals = ret_vals(f.body)
         r = vals.pop() if len(vals) == 1 else None
         cache[k] = r
         return r
